@@ -65,5 +65,5 @@ def units(tier):
     return [absu, conc]
 
 def replay_args(obl, inputs, res):
-    keep = ('a', 'b', 'e', 'n', 'd', 'op', 'with_int', 'reversed', 'X.i.num', 'X.i.den', 'Y.i.num', 'Y.i.den', 'K.i', 'E.i')
+    keep = ('A.i', 'B.i', 'n', 'd', 'op', 'with_int', 'reversed', 'X.i.num', 'X.i.den', 'Y.i.num', 'Y.i.den', 'K.i', 'E.i')
     return [obl] + ["%s=%s" % (k, v.get("binary") or v.get("data")) for k, v in sorted(inputs.items()) if k in keep]
